@@ -13,7 +13,12 @@ uint32_t cx_n, cx_r, cx_custom, cx_orig[J]; uint8_t cx_op, cx_j, cx_kind[J], cx_
 uint8_t cx_elen[J], cx_enc[J][ENC_MAX];
 int main(void)
 {
-  uint8_t with_persist = nondet_u8() & 1, always = nondet_u8() & 1;
+#ifdef NOPERSIST             /* persister presence is a compile-time variant: a symbolic Persister* defeats devirtualisation */
+  uint8_t with_persist = 0;
+#else
+  uint8_t with_persist = 1;
+#endif
+  uint8_t always = nondet_u8() & 1;
 #ifdef NO_ALWAYS
   always = 0;
 #endif
